@@ -473,9 +473,10 @@ def _factor_to(node, target_pred):
 def tb5(ctx, R):
     from .sym import Sym, show, alpha, select_path, collect, contains
     prog = ctx.prog
-    fi = prog.func("scaling.ThermocoupleScaling.scale")
-    paths = Sym(prog, fi, fi.cls).function_paths()
+    fi = prog.func("scaling.ThermocoupleScaling.scale")          # own or inherited (template method with a hook)
+    value = Sym(prog, fi, prog.cls("scaling.ThermocoupleScaling")).function_value()
     data = ("param", fi.params[1])
+    from .sym import simplify
 
     def is_data(n):
         # the input array, possibly converted to double
@@ -489,13 +490,15 @@ def tb5(ctx, R):
             if c == ("cmp", "!=", ("self", "scaling_direction"), ("const", 1)):
                 return direction != 1
             return None
-        sel = select_path(paths, oracle)
         key = "scaling.ThermocoupleScaling.scale::direction %d" % direction
-        if sel is None or sel[1] is None:
-            R.undecided(key, fi.where(), "no unique path for scaling_direction %s 1" % ("==" if direction == 1 else "!="))
+        val = simplify(value, oracle)
+        if val[0] in ("opaque", "phi"):
+            R.undecided(key, fi.where(), "no unique result for scaling_direction %s 1" % ("==" if direction == 1 else "!="))
             continue
-        val = sel[1]
         calls = collect(val, lambda n: isinstance(n, tuple) and n and n[0] == "method" and n[1] in ("celsius_to_mv", "mv_to_celsius") and n[2] == ("self", "thermocouple"))
+        if not calls:
+            R.undecided(key, fi.where(), "no call of the thermocouple's conversion methods found in the result `%s`" % show(alpha(val))[:100])
+            continue
         if len(calls) != 1 or calls[0][1] != method:
             R.violation(key, fi.where(), "with scaling_direction %s 1 the conversion applied is %s (expected %s)" % (
                 "==" if direction == 1 else "!=", [c[1] for c in calls], method))
